@@ -282,7 +282,27 @@ func stress(kind string, capacity, nprod, nmsgs, histories int, seed int64, h hi
 	rng := rand.New(rand.NewSource(seed))
 	for i := 0; i < histories; i++ {
 		h.w.Raw(map[string]any{"ev": "New"})
-		m := newMailbox(kind, capacity)
+		mkind := kind
+		prefill := 0
+		if kind == "segroll" { // segmented mailbox driven across a 256-slot segment boundary
+			mkind = "seg"
+			prefill = 256 - 1 - rng.Intn(nprod*nmsgs)
+		}
+		m := newMailbox(mkind, capacity)
+		if prefill > 0 {
+			// fill and drain sequentially so that the concurrent phase straddles the roll-over
+			// (not part of the judged history: sequential, and the queue is empty again afterwards)
+			snd := actor.VerifNewSenderPID("pre")
+			for k := 0; k < prefill; k++ {
+				_ = m.Enqueue(actor.VerifPooledContext(snd, &Msg{ID: 1000 + k}))
+			}
+			for k := 0; k < prefill; k++ {
+				if r := msgID(m.Dequeue()); r != 1000+k {
+					h.call("c", "deq", 0, "", 0) // record the anomaly so that the monitor sees it
+					h.ret("c", "deq", r)
+				}
+			}
+		}
 		var wg sync.WaitGroup
 		total := nprod * nmsgs
 		var accepted int64
